@@ -14,6 +14,12 @@ front ends build equal circuits (`C17_build_front_ends`).
 The proof follows `build_subcircuit_block`: `count == "" or count is None` gives `1`, and `self.build(1)` is `1`;
 everything else of the S-expression is literally the same, including the gate statements (so the memo table
 evolves identically) and the nesting depth (the model's fuel).
+
+The builder model is used only through the small lemmas of the section `Interface` (congruence of one builder
+step in the members of a block / the body of a loop / the count and members of a subcircuit, `subCount` on the
+three spellings, the `cons` equations of `mapMSt` and `circuitLoop`, `buildWith` on a circuit): if
+`Model/Builder.lean` changes shape, only those few proofs (each `simp only [anyStep]; simp [h]` or shorter)
+need attention.
 -/
 namespace Jaqal.FrontEnds
 open Jaqal
@@ -36,68 +42,181 @@ def BRelL (xs ys : List Sx) : Prop :=
       = Builder.circuitLoop cfg mode inject f acc (Builder.BSx.ofSxList ys)) ∧
   Builder.BSx.depthList (Builder.BSx.ofSxList xs) = Builder.BSx.depthList (Builder.BSx.ofSxList ys)
 
+/-! ## Interface lemmas about the builder
+
+Everything below this section uses the builder model only through these statements: how `buildAny` treats a
+list, that a block / loop / subcircuit step depends on its members only through `mapMSt` (resp. the recursive
+call on the body), how `subCount` reads the three spellings, and the `cons` equations of `mapMSt` /
+`circuitLoop`.  Their proofs are the only places that unfold `anyStep`. -/
+section Interface
+open Builder
+
+theorem buildAny_zero (cfg : Config) (mode : KeyMode) (ctx : Builder.Ctx) (l : List BSx) (st : St) :
+    buildAny cfg mode 0 ctx (.list l) st = throw .hang := by
+  simp [buildAny]
+
+theorem buildAny_succ (cfg : Config) (mode : KeyMode) (f : Nat) (ctx : Builder.Ctx) (l : List BSx) (st : St) :
+    buildAny cfg mode (f + 1) ctx (.list l) st
+      = anyStep cfg mode (buildAny cfg mode f) (buildVal ctx f) ctx l st := by
+  simp [buildAny]
+
+/-- a step on a list depends on the fuel-decremented recursion only: two lists with equal steps at every fuel
+are interchangeable under `buildAny` -/
+theorem buildAny_list_congr {l l' : List BSx}
+    (h : ∀ cfg mode f ctx st, anyStep cfg mode (buildAny cfg mode f) (buildVal ctx f) ctx l st
+        = anyStep cfg mode (buildAny cfg mode f) (buildVal ctx f) ctx l' st)
+    (cfg : Config) (mode : KeyMode) (f : Nat) (ctx : Builder.Ctx) (st : St) :
+    buildAny cfg mode f ctx (.list l) st = buildAny cfg mode f ctx (.list l') st := by
+  cases f with
+  | zero => rw [buildAny_zero, buildAny_zero]
+  | succ f => rw [buildAny_succ, buildAny_succ, h]
+
+variable {cfg : Config} {mode : KeyMode} {recA : Builder.Ctx → BSx → St → M (Obj × St)} {recV : BSx → M Val}
+
+theorem anyStep_seq_congr {xs ys : List BSx}
+    (h : ∀ ctx' st', mapMSt (recA ctx') xs st' = mapMSt (recA ctx') ys st') (ctx : Builder.Ctx) (st : St) :
+    anyStep cfg mode recA recV ctx (.str "sequential_block" :: xs) st
+      = anyStep cfg mode recA recV ctx (.str "sequential_block" :: ys) st := by
+  simp only [anyStep]
+  simp [h]
+
+theorem anyStep_par_congr {xs ys : List BSx}
+    (h : ∀ ctx' st', mapMSt (recA ctx') xs st' = mapMSt (recA ctx') ys st') (ctx : Builder.Ctx) (st : St) :
+    anyStep cfg mode recA recV ctx (.str "parallel_block" :: xs) st
+      = anyStep cfg mode recA recV ctx (.str "parallel_block" :: ys) st := by
+  simp only [anyStep]
+  simp [h]
+
+theorem anyStep_loop_congr (n : BSx) {b b' : BSx}
+    (h : ∀ ctx' st', recA ctx' b st' = recA ctx' b' st') (ctx : Builder.Ctx) (st : St) :
+    anyStep cfg mode recA recV ctx [.str "loop", n, b] st
+      = anyStep cfg mode recA recV ctx [.str "loop", n, b'] st := by
+  simp only [anyStep]
+  simp [h]
+
+theorem anyStep_sub_congr {n n' : BSx} {xs ys : List BSx} (hn : subCount recV n = subCount recV n')
+    (h : ∀ ctx' st', mapMSt (recA ctx') xs st' = mapMSt (recA ctx') ys st') (ctx : Builder.Ctx) (st : St) :
+    anyStep cfg mode recA recV ctx (.str "subcircuit_block" :: n :: xs) st
+      = anyStep cfg mode recA recV ctx (.str "subcircuit_block" :: n' :: ys) st := by
+  simp only [anyStep]
+  simp [h, hn]
+
+/-- `build_subcircuit_block`: `count == "" or count is None` reads as 1, and `self.build(1)` is 1 -/
+theorem subCount_absent (ctx : Builder.Ctx) (f : Nat) :
+    subCount (buildVal ctx f) (.str "") = pure (.int 1) ∧
+    subCount (buildVal ctx f) .none = pure (.int 1) ∧
+    subCount (buildVal ctx f) (.int 1) = pure (.int 1) := by
+  refine ⟨by simp [subCount], by simp [subCount], ?_⟩
+  cases f <;> simp [subCount, buildVal]
+
+theorem mapMSt_cons_congr {g : BSx → St → M (Obj × St)} {x y : BSx} {xs ys : List BSx}
+    (h : ∀ st, g x st = g y st) (hs : ∀ st, mapMSt g xs st = mapMSt g ys st) (st : St) :
+    mapMSt g (x :: xs) st = mapMSt g (y :: ys) st := by
+  simp only [mapMSt, h, hs]
+
+theorem circuitLoop_cons_congr {inject : Option (List (String × GateDef))} {f : Nat} {x y : BSx} {xs ys : List BSx}
+    (h : ∀ ctx st, buildAny cfg mode f ctx x st = buildAny cfg mode f ctx y st)
+    (hs : ∀ acc, circuitLoop cfg mode inject f acc xs = circuitLoop cfg mode inject f acc ys) (acc : Acc) :
+    circuitLoop cfg mode inject f acc (x :: xs) = circuitLoop cfg mode inject f acc (y :: ys) := by
+  simp only [circuitLoop, circuitStep, h, hs]
+
+/-- `build` of a circuit depends on its children through `circuitLoop` and their depth -/
+theorem buildWith_circuit_congr {xs ys : List BSx} (hd : BSx.depthList xs = BSx.depthList ys)
+    (h : ∀ inject f acc, circuitLoop cfg mode inject f acc xs = circuitLoop cfg mode inject f acc ys) :
+    buildWith mode cfg (.list (.str "circuit" :: xs)) = buildWith mode cfg (.list (.str "circuit" :: ys)) := by
+  simp only [buildWith, buildCore, BSx.depth, BSx.depthList, hd, h]
+
+theorem depth_list (l : List BSx) : (BSx.list l).depth = BSx.depthList l + 1 := by simp [BSx.depth]
+theorem depthList_cons (x : BSx) (l : List BSx) : BSx.depthList (x :: l) = max x.depth (BSx.depthList l) := by
+  simp [BSx.depthList]
+theorem depth_str (s : String) : (BSx.str s).depth = 0 := by simp [BSx.depth]
+theorem depth_int (k : Int) : (BSx.int k).depth = 0 := by simp [BSx.depth]
+theorem depth_none : BSx.none.depth = 0 := by simp [BSx.depth]
+theorem ofSx_list (l : List Sx) : BSx.ofSx (.list l) = .list (BSx.ofSxList l) := by simp [BSx.ofSx]
+theorem ofSxList_cons (x : Sx) (l : List Sx) : BSx.ofSxList (x :: l) = BSx.ofSx x :: BSx.ofSxList l := by
+  simp [BSx.ofSxList]
+theorem ofSx_str (s : String) : BSx.ofSx (.str s) = .str s := by simp [BSx.ofSx]
+theorem ofSx_int (k : Int) : BSx.ofSx (.int k) = .int k := by simp [BSx.ofSx]
+theorem ofSx_none : BSx.ofSx .none = .none := by simp [BSx.ofSx]
+theorem ofSxList_nil : BSx.ofSxList [] = [] := by simp [BSx.ofSxList]
+theorem depthList_nil : BSx.depthList [] = 0 := by simp [BSx.depthList]
+theorem build_eq_buildWith (cfg : Config) (e : BSx) : build cfg e = buildWith .new cfg e := rfl
+/-- `parse_jaqal_string` after the parser = `build`, then the register check -/
+theorem parseBuild_congr {cfg : Config} {x y : Sx} (h : build cfg (BSx.ofSx x) = build cfg (BSx.ofSx y)) :
+    parseBuild cfg x = parseBuild cfg y := by
+  simp only [parseBuild, h]
+
+end Interface
+
 theorem BRel.refl (x : Sx) : BRel x x := ⟨fun _ _ _ _ _ => rfl, rfl⟩
 theorem BRelL.refl (xs : List Sx) : BRelL xs xs := ⟨fun _ _ _ _ _ => rfl, fun _ _ _ _ _ => rfl, rfl⟩
 
 theorem BRelL.cons {x y : Sx} {xs ys : List Sx} (h : BRel x y) (hs : BRelL xs ys) : BRelL (x :: xs) (y :: ys) := by
   refine ⟨?_, ?_, ?_⟩
   · intro cfg mode f ctx st
-    simp only [Builder.BSx.ofSxList, Builder.mapMSt, h.1, hs.1]
+    rw [ofSxList_cons, ofSxList_cons]
+    exact mapMSt_cons_congr (h.1 cfg mode f ctx) (hs.1 cfg mode f ctx) st
   · intro cfg mode inject f acc
-    simp only [Builder.BSx.ofSxList, Builder.circuitLoop, Builder.circuitStep, h.1, hs.2.1]
-  · simp only [Builder.BSx.ofSxList, Builder.BSx.depthList, h.2, hs.2.2]
+    rw [ofSxList_cons, ofSxList_cons]
+    exact circuitLoop_cons_congr (fun ctx st => h.1 cfg mode f ctx st) (hs.2.1 cfg mode inject f) acc
+  · rw [ofSxList_cons, ofSxList_cons, depthList_cons, depthList_cons, h.2, hs.2.2]
 
 theorem BRelL.prepend (pre : List Sx) {xs ys : List Sx} (hs : BRelL xs ys) : BRelL (pre ++ xs) (pre ++ ys) := by
   induction pre with
   | nil => exact hs
   | cons x pre ih => exact BRelL.cons (BRel.refl x) ih
 
+/-- the depth of `[head-string, members…]` -/
+theorem depth_headed (s : String) (xs : List Sx) :
+    (Builder.BSx.ofSx (.list (.str s :: xs))).depth = Builder.BSx.depthList (Builder.BSx.ofSxList xs) + 1 := by
+  rw [ofSx_list, ofSxList_cons, depth_list, depthList_cons, ofSx_str, depth_str, Nat.zero_max]
+
 theorem BRel.seq {xs ys : List Sx} (h : BRelL xs ys) :
     BRel (.list (.str "sequential_block" :: xs)) (.list (.str "sequential_block" :: ys)) := by
-  refine ⟨?_, ?_⟩
-  · intro cfg mode f ctx st
-    cases f with
-    | zero => simp [Builder.BSx.ofSx, Builder.buildAny]
-    | succ f =>
-      simp only [Builder.BSx.ofSx, Builder.BSx.ofSxList, Builder.buildAny, Builder.anyStep]
-      simp [h.1]
-  · simp [Builder.BSx.ofSx, Builder.BSx.ofSxList, Builder.BSx.depth, Builder.BSx.depthList, h.2.2]
+  refine ⟨?_, by rw [depth_headed, depth_headed, h.2.2]⟩
+  intro cfg mode f ctx st
+  simp only [ofSx_list, ofSxList_cons, ofSx_str]
+  exact buildAny_list_congr (fun cfg mode f ctx st => anyStep_seq_congr (fun ctx' st' => h.1 cfg mode f ctx' st') ctx st)
+    cfg mode f ctx st
 
 theorem BRel.par {xs ys : List Sx} (h : BRelL xs ys) :
     BRel (.list (.str "parallel_block" :: xs)) (.list (.str "parallel_block" :: ys)) := by
-  refine ⟨?_, ?_⟩
-  · intro cfg mode f ctx st
-    cases f with
-    | zero => simp [Builder.BSx.ofSx, Builder.buildAny]
-    | succ f =>
-      simp only [Builder.BSx.ofSx, Builder.BSx.ofSxList, Builder.buildAny, Builder.anyStep]
-      simp [h.1]
-  · simp [Builder.BSx.ofSx, Builder.BSx.ofSxList, Builder.BSx.depth, Builder.BSx.depthList, h.2.2]
+  refine ⟨?_, by rw [depth_headed, depth_headed, h.2.2]⟩
+  intro cfg mode f ctx st
+  simp only [ofSx_list, ofSxList_cons, ofSx_str]
+  exact buildAny_list_congr (fun cfg mode f ctx st => anyStep_par_congr (fun ctx' st' => h.1 cfg mode f ctx' st') ctx st)
+    cfg mode f ctx st
 
 theorem BRel.loop (n : Sx) {xs ys : List Sx} (h : BRelL xs ys) :
     BRel (.list [.str "loop", n, .list (.str "sequential_block" :: xs)])
       (.list [.str "loop", n, .list (.str "sequential_block" :: ys)]) := by
   have hseq := BRel.seq h
-  simp only [BRel, Builder.BSx.ofSx, Builder.BSx.ofSxList] at hseq
   refine ⟨?_, ?_⟩
   · intro cfg mode f ctx st
-    cases f with
-    | zero => simp [Builder.BSx.ofSx, Builder.buildAny]
-    | succ f =>
-      simp only [Builder.BSx.ofSx, Builder.BSx.ofSxList, Builder.buildAny, Builder.anyStep]
-      simp [hseq.1]
-  · simp [Builder.BSx.ofSx, Builder.BSx.ofSxList, Builder.BSx.depth, Builder.BSx.depthList, h.2.2]
+    rw [ofSx_list, ofSx_list]
+    simp only [ofSxList_cons, ofSx_str]
+    rw [ofSxList_nil]
+    exact buildAny_list_congr
+      (fun cfg mode f ctx st => anyStep_loop_congr _ (fun ctx' st' => hseq.1 cfg mode f ctx' st') ctx st) cfg mode f ctx st
+  · rw [depth_headed, depth_headed]
+    simp only [ofSxList_cons, depthList_cons, ofSxList_nil, depthList_nil, hseq.2]
 
 theorem BRel.sub_same (n : Sx) {xs ys : List Sx} (h : BRelL xs ys) :
     BRel (.list (.str "subcircuit_block" :: n :: xs)) (.list (.str "subcircuit_block" :: n :: ys)) := by
   refine ⟨?_, ?_⟩
   · intro cfg mode f ctx st
-    cases f with
-    | zero => simp [Builder.BSx.ofSx, Builder.buildAny]
-    | succ f =>
-      simp only [Builder.BSx.ofSx, Builder.BSx.ofSxList, Builder.buildAny, Builder.anyStep]
-      simp [h.1]
-  · simp [Builder.BSx.ofSx, Builder.BSx.ofSxList, Builder.BSx.depth, Builder.BSx.depthList, h.2.2]
+    simp only [ofSx_list, ofSxList_cons, ofSx_str]
+    exact buildAny_list_congr
+      (fun cfg mode f ctx st => anyStep_sub_congr rfl (fun ctx' st' => h.1 cfg mode f ctx' st') ctx st) cfg mode f ctx st
+  · rw [depth_headed, depth_headed, ofSxList_cons, ofSxList_cons, depthList_cons, depthList_cons, h.2.2]
+
+theorem AbsentSpelling.ofSx {a : Sx} (ha : AbsentSpelling a) :
+    (Builder.BSx.ofSx a).depth = 0 ∧
+    ∀ ctx f, Builder.subCount (Builder.buildVal ctx f) (Builder.BSx.ofSx a) = pure (.int 1) := by
+  rcases ha with rfl | rfl | rfl
+  · exact ⟨by rw [ofSx_str, depth_str], fun ctx f => by rw [ofSx_str]; exact (subCount_absent ctx f).1⟩
+  · exact ⟨by rw [ofSx_none, depth_none], fun ctx f => by rw [ofSx_none]; exact (subCount_absent ctx f).2.1⟩
+  · exact ⟨by rw [ofSx_int, depth_int], fun ctx f => by rw [ofSx_int]; exact (subCount_absent ctx f).2.2⟩
 
 /-- `build_subcircuit_block`: `""`, `None` and `1` in the count position give the same block. -/
 theorem BRel.sub_absent {a b : Sx} (ha : AbsentSpelling a) (hb : AbsentSpelling b) {xs ys : List Sx}
@@ -105,14 +224,12 @@ theorem BRel.sub_absent {a b : Sx} (ha : AbsentSpelling a) (hb : AbsentSpelling 
     BRel (.list (.str "subcircuit_block" :: a :: xs)) (.list (.str "subcircuit_block" :: b :: ys)) := by
   refine ⟨?_, ?_⟩
   · intro cfg mode f ctx st
-    cases f with
-    | zero => simp [Builder.BSx.ofSx, Builder.buildAny]
-    | succ f =>
-      rcases ha with rfl | rfl | rfl <;> rcases hb with rfl | rfl | rfl <;>
-        (simp only [Builder.BSx.ofSx, Builder.BSx.ofSxList, Builder.buildAny, Builder.anyStep]
-         simp [h.1, Builder.buildVal])
-  · rcases ha with rfl | rfl | rfl <;> rcases hb with rfl | rfl | rfl <;>
-      simp [Builder.BSx.ofSx, Builder.BSx.ofSxList, Builder.BSx.depth, Builder.BSx.depthList, h.2.2]
+    simp only [ofSx_list, ofSxList_cons, ofSx_str]
+    exact buildAny_list_congr
+      (fun cfg mode f ctx st => anyStep_sub_congr (by rw [ha.ofSx.2, hb.ofSx.2])
+        (fun ctx' st' => h.1 cfg mode f ctx' st') ctx st) cfg mode f ctx st
+  · rw [depth_headed, depth_headed, ofSxList_cons, ofSxList_cons, depthList_cons, depthList_cons, h.2.2,
+      ha.ofSx.1, hb.ofSx.1]
 
 mutual
 theorem genStmt_brel {a b : Sx} (ha : AbsentSpelling a) (hb : AbsentSpelling b) (ln rn : List String) :
@@ -155,8 +272,8 @@ end
 theorem buildWith_circuit {l l' : List Sx} (h : BRelL l l') (mode : Builder.KeyMode) (cfg : Builder.Config) :
     Builder.buildWith mode cfg (Builder.BSx.ofSx (.list (.str "circuit" :: l)))
       = Builder.buildWith mode cfg (Builder.BSx.ofSx (.list (.str "circuit" :: l'))) := by
-  simp only [Builder.buildWith, Builder.BSx.ofSx, Builder.BSx.ofSxList, Builder.buildCore, Builder.BSx.depth,
-    Builder.BSx.depthList, h.2.2, h.2.1]
+  rw [ofSx_list, ofSx_list, ofSxList_cons, ofSxList_cons, ofSx_str]
+  exact buildWith_circuit_congr h.2.2 (fun inject f acc => h.2.1 cfg mode inject f acc)
 
 /-- The lowering of a program with two spellings of the absent count: `build` (any memo-key mode, any
 configuration) answers the same. -/
@@ -381,13 +498,13 @@ theorem C17_build_front_ends (p : Prog) (cfg : Builder.Config) :
     have := genProg_build (a := .none) (b := .str "") (.inr (.inl rfl)) (.inl rfl) p
     cases h1 : genProg .none p <;> cases h2 : genProg (.str "") p <;> simp only [h1, h2, MRel] at this ⊢
     · exact this
-    · exact ⟨this .new cfg, by simp only [Builder.parseBuild, Builder.build, this .new cfg]⟩
+    · exact ⟨this .new cfg, parseBuild_congr (this .new cfg)⟩
   · intro s hs
     have hg := lowerQ_gen p hs
     have := genProg_build (a := .int 1) (b := .str "") (.inr (.inr rfl)) (.inl rfl) (if wraps p then wrap p else p)
     rw [hg] at this
     obtain ⟨y, hy, hr⟩ := this.ok_left
-    exact ⟨y, by rw [parseSx_eq, hy], hr .new cfg, by simp only [Builder.parseBuild, Builder.build, hr .new cfg]⟩
+    exact ⟨y, by rw [parseSx_eq, hy], hr .new cfg, parseBuild_congr (hr .new cfg)⟩
 
 /-- Non-vacuity: a program with a count-less subcircuit; the three front ends spell the count `1`, `None`, `""`
 and the hypotheses of the theorems above hold. -/
